@@ -198,10 +198,113 @@ pub fn run(ctx: &Ctx) -> Report {
         }
     }
 
+    // (4) signed-header lists as multisets: names repeated once or twice, a name of a header that was not sent, in
+    //     every requirement set — the list is what the client declares, and a required name is in it or is not,
+    //     however many entries there are
+    {
+        let mut shapes4: Vec<(u32, u32)> = Vec::new();
+        for present in [127u32, 0, 1, 2, 4, 8, 16, 32, 64, 3, 12, 48, 5, 10, 80] {
+            let mut sub = present;
+            loop {
+                shapes4.push((present, sub));
+                if sub == 0 {
+                    break;
+                }
+                sub = (sub - 1) & present;
+            }
+        }
+        let n_sh = shapes4.len() as u64;
+        let n_dup: u64 = 8;
+        let total4 = 64 * n_sh * n_dup;
+        let base4 = base2 + n_seq + 10;
+        let st4 = par_sweep(total4, |i, st| {
+            let mut x = i;
+            let dup = x % n_dup;
+            x /= n_dup;
+            let (present, signed_mask) = shapes4[(x % n_sh) as usize];
+            x /= n_sh;
+            let rs = x;
+            let reqs = ReqSpec {
+                always: (0..2).filter(|b| rs & (1 << b) != 0).map(|b| ALWAYS[b].to_string()).collect(),
+                if_in_request: (0..2).filter(|b| rs & (4 << b) != 0).map(|b| IFIN[b].to_string()).collect(),
+                prefixes: (0..2).filter(|b| rs & (16 << b) != 0).map(|b| PREFIXES[b].to_string()).collect(),
+                how: Some(if i % 2 == 0 { ReqBuild::Slice } else { ReqBuild::VecNew }),
+            };
+            let mut plan = e2e::base_plan(Carrier::Header);
+            plan.headers.clear();
+            plan.headers.push(("Host".into(), b"example.amazonaws.com".to_vec()));
+            for (b, h) in HDRS.iter().enumerate() {
+                if present & (1 << b) != 0 {
+                    plan.headers.push((h.to_string(), format!("v{}", b).into_bytes()));
+                }
+            }
+            let mut list: Vec<String> = vec!["host".into(), "x-amz-date".into()];
+            for (b, h) in HDRS.iter().enumerate() {
+                if signed_mask & (1 << b) != 0 {
+                    list.push(h.to_string());
+                }
+            }
+            let first_optional = list.get(2).cloned();
+            match dup {
+                0 => {}
+                1 => list.push("host".into()),
+                2 => {
+                    list.push("host".into());
+                    list.push("host".into());
+                }
+                3 => list.push("x-amz-date".into()),
+                4 => {
+                    if let Some(f) = first_optional {
+                        list.push(f);
+                    }
+                }
+                5 => {
+                    let copy = list.clone();
+                    list.extend(copy);
+                }
+                6 => list.push("x-not-sent".into()),
+                _ => {
+                    // as many repeats of sent names as there are sent headers left unsigned
+                    let unsigned = (present & !signed_mask).count_ones();
+                    for _ in 0..unsigned {
+                        list.push("host".into());
+                    }
+                }
+            }
+            plan.signed = list;
+            let built = build(&plan);
+            let mut cfg = Cfg::basic(e2e::base_instant());
+            cfg.reqs = reqs;
+            let case = Case { wire: WireReq::from_wire(&built.wire), cfg, prov: ProvSpec::standard() };
+            // how a repeated name is rendered in the canonical request is not stated anywhere; only the direction the
+            // property states is judged: never accepted while a required header is missing from the list
+            let j = e2e::judge(&case);
+            st.evaluations += 1;
+            st.transitions += 1;
+            st.validated += 1;
+            st.outcome(&format!("multiset:{}|ref:{}", j.sut.label().chars().take(24).collect::<String>(), j.reference.accepted()));
+            if j.sut.is_ok() && !j.reference.accepted() {
+                st.violation(crate::core::Violation {
+                    index: base4 + i,
+                    what: "signed-list-with-repeats:accepted-although-a-required-header-is-not-in-the-signed-list".into(),
+                    case: json!({"e2e": case, "ambient": if crate::env::ambient_b() { "B" } else { "A" }}),
+                    expected: format!("refused: {:?} at {:?}", j.reference.error, j.reference.stage),
+                    observed: "Ok".into(),
+                    known: None,
+                });
+            } else if !j.sut.is_ok() && j.reference.accepted() {
+                st.note("multiset-list-refused-where-the-reference-accepts(not-judged)");
+            }
+            st.state(&(rs, j.reference.accepted(), "multiset"));
+            st.nontrivial(&(rs, present, signed_mask, dup, "multiset"));
+        });
+        st = st.merge(st4);
+    }
+
     Report {
         stats: st,
         rule: format!(
-            "64 requirement sets (always ⊆ {{x-req-a, Content-Type}}, if-in-request ⊆ {{x-opt-c, ETag}}, prefixes ⊆ {{x-p-, X-Amz}}) x {} letter-case styles x {} ways of building the requirements (slice, VecSignedHeaderRequirements::new, add_*, add_* then remove_* of decoys) x every subset of 7 optional request headers (one of them named exactly like the declared prefix x-p-; values rotate through empty, blank and non-empty) x every signed subset of the present headers and x-amz-date x {{host, :authority, neither}}; every request is correctly signed over exactly the list it declares, so only the requirement rules can refuse it. Oracle: reference verifier (Ok iff host/:authority signed, every always-header signed, every present conditional header signed, every present header matching a prefix — including x-amz-date and authorization-related ones — signed; otherwise SignatureDoesNotMatch/403 and an empty provider log). plus every sequence of up to {} add_*/remove_* operations over three names (two of them case variants of each other) on VecSignedHeaderRequirements, compared with a set model of what was declared. states = (requirement set, accepted)",
+            "64 requirement sets (always ⊆ {{x-req-a, Content-Type}}, if-in-request ⊆ {{x-opt-c, ETag}}, prefixes ⊆ {{x-p-, X-Amz}}) x {} letter-case styles x {} ways of building the requirements (slice, VecSignedHeaderRequirements::new, add_*, add_* then remove_* of decoys) x every subset of 7 optional request headers (one of them named exactly like the declared prefix x-p-; values rotate through empty, blank and non-empty) x every signed subset of the present headers and x-amz-date x {{host, :authority, neither}}; every request is correctly signed over exactly the list it declares, so only the requirement rules can refuse it. Oracle: reference verifier (Ok iff host/:authority signed, every always-header signed, every present conditional header signed, every present header matching a prefix — including x-amz-date and authorization-related ones — signed; otherwise SignatureDoesNotMatch/403 and an empty provider log). plus every sequence of up to {} add_*/remove_* operations over three names (two of them case variants of each other) on VecSignedHeaderRequirements, compared with a set model of what was declared; plus signed-header lists as multisets (a name repeated once / twice, every entry doubled, a name of a header not sent, as many repeats as there are unsigned sent headers) x 64 requirement sets x 15 header presence sets x every signed subset. states = (requirement set, accepted)",
             if thorough { 3 } else { 3 }, n_build, depth
         ),
         bounds: json!({"requirement_sets": 64, "shapes": n_shapes, "cases": total}),
